@@ -50,7 +50,8 @@ def _clauses(spec, prefix, default_props):
 
 class LoopSpec:
     def __init__(self, invariant=None, variant=None, ghost=None, index=None, locals=None, props=None, bound=None,
-                 reveal=None):
+                 reveal=None, lemmas=None):
+        self.lemmas = lemmas or []
         self.bound = bound
         self.reveal = reveal or []
         self.invariant_src = invariant
@@ -69,7 +70,10 @@ class Contract:
     def __init__(self, qual, params=None, returns=None, requires=None, ensures=None, raises=None,
                  modifies=None, loops=None, locals=None, props=None, trusted=False, pure=False,
                  receivers=None, exc_attrs=None, note='', inline_callees=None, reveal=None, events=None,
-                 cases=None, verify=True):
+                 cases=None, verify=True, lemmas=None, call_reveal=None, after=None):
+        self.after = after or {}
+        self.lemmas = lemmas or []
+        self.call_reveal = call_reveal or []   # definitions unfolded at every call site (over the parameters)
         self.qual = qual
         self.params = params or {}
         self.returns = returns
@@ -148,8 +152,11 @@ class SpecFn:
         self.z3fn = None
 
 
-def spec(name, params, returns, body=None, recursive=False, decreases=None, facts=None, doc=''):
+def spec(name, params, returns, body=None, recursive=False, decreases=None, facts=None, doc='', opaque=False):
+    """opaque=True: the definition is hidden behind an uninterpreted symbol and only used where a
+    contract says reveal(f(args)) (keeps quantified invariants cheap to instantiate)"""
     SPECS[name] = SpecFn(name, params, returns, body, recursive, decreases, facts, doc)
+    SPECS[name].opaque = opaque
 
 
 def inline(*quals):
